@@ -701,6 +701,14 @@ where
 
 	// if self sending, make sure to store 'initiator' keys
 	let context_res = w.get_private_context(keychain_mask, slate.id.as_bytes());
+	// A context stored under this id is only that of a self-issued invoice if it has no inputs and
+	// no late-lock arguments; otherwise it belongs to one of our own pending sends and the slate id
+	// is being reused (the self-send path below would publish an offset made of our excess key only)
+	if let Ok(c) = &context_res {
+		if !c.input_ids.is_empty() || c.late_lock_args.is_some() {
+			return Err(Error::TransactionAlreadyReceived(ret_slate.id.to_string()));
+		}
+	}
 
 	let mut context = tx::add_inputs_to_slate(
 		&mut *w,
